@@ -743,7 +743,9 @@ func NewEstDriver(tier string) *EstDriver {
 		estOp{kind: "putUnknownContainer", e: 0, rel: true, cid: 0, node: 0, size: 10}, estOp{kind: "tick"},
 		estOp{kind: "putOtherNode", e: 0, rel: true, cid: 0, node: 0, size: 10},
 		// node 3 joined with the latest tick (in the current map only), node 4 left with it (in the previous map only)
-		estOp{kind: "put", e: 0, rel: true, cid: 0, node: 3, size: 33}, estOp{kind: "put", e: 0, rel: true, cid: 0, node: 4, size: 44})
+		estOp{kind: "put", e: 0, rel: true, cid: 0, node: 3, size: 33}, estOp{kind: "put", e: 0, rel: true, cid: 0, node: 4, size: 44},
+		// the container is removed while estimations for it are still fresh
+		estOp{kind: "delContainer", cid: 0})
 	return d
 }
 
@@ -794,10 +796,16 @@ func (d *EstDriver) OpName(n *Node, i int) string {
 	if o.kind == "tick" {
 		return fmt.Sprintf("netmap.newEpoch(%d)", m.epoch+1)
 	}
+	if o.kind == "delContainer" {
+		return fmt.Sprintf("container.delete(cid %d)", o.cid)
+	}
 	return fmt.Sprintf("%s ContainerSize(epoch %d, cid %d, size %d, node %d)", o.kind, d.abs(m, o), o.cid, o.size, o.node)
 }
 func (d *EstDriver) Enabled(n *Node, i int) bool {
 	m := n.M.(*kvModel)
+	if d.ops[i].kind == "delContainer" {
+		return len(m.m["deleted"]) == 0
+	}
 	return d.ops[i].kind != "tick" || m.epoch < d.Base+6
 }
 
@@ -821,7 +829,14 @@ func (d *EstDriver) Step(x *Exec, n *Node, i int) StepResult {
 		fmt.Sscanf(k, "%d/%d/%d", &e, &c, &nd)
 		return e, c, nd
 	}
-	if o.kind == "tick" {
+	if o.kind == "delContainer" {
+		// the container goes, its estimations stay until the documented deltas have passed
+		obs, nn = x.Do(n, Call{Script: Script(h, "delete", d.cids[o.cid], []byte("sig"), []byte("tok")), Signers: []util.Uint160{w.Alpha}, Label: d.OpName(n, i)})
+		if !obs.Halt {
+			return viol("outcome", "delete failed: "+obs.Fault)
+		}
+		nm.m["deleted"] = []string{fmt.Sprint(o.cid)}
+	} else if o.kind == "tick" {
 		e := m.epoch + 1
 		obs, nn = x.Do(n, Call{Script: Script(w.Contracts["netmap"].Hash, "newEpoch", e), Signers: []util.Uint160{w.Alpha}, Label: d.OpName(n, i)})
 		if !obs.Halt {
@@ -830,7 +845,7 @@ func (d *EstDriver) Step(x *Exec, n *Node, i int) StepResult {
 		nm.epoch = e
 		nm.m["prev"] = append([]string{}, m.m["cur"]...) // candidates do not change here: the new map equals the current one
 		for k := range m.m {
-			if k == "prev" || k == "cur" {
+			if k == "prev" || k == "cur" || k == "deleted" {
 				continue
 			}
 			if ke, _, _ := parse(k); e-ke > 4 { // TotalCleanupDelta
@@ -851,6 +866,9 @@ func (d *EstDriver) Step(x *Exec, n *Node, i int) StepResult {
 		}
 		obs, nn = x.Do(n, Call{Script: Script(h, "putContainerSize", e, cid, o.size, d.nodes[o.node].Pub()), Signers: []util.Uint160{signer}, Label: d.OpName(n, i)})
 		want := o.kind == "put" && contains(m.m["prev"], fmt.Sprint(o.node)) // nodes of the PREVIOUS epoch's map
+		if contains(m.m["deleted"], fmt.Sprint(o.cid)) {
+			want = false // no estimations for a container that is gone
+		}
 		if obs.Halt != want {
 			where["case"] = o.kind
 			return viol("estimation-access", fmt.Sprintf("%s: halt=%v fault=%q", d.OpName(n, i), obs.Halt, obs.Fault))
@@ -864,7 +882,7 @@ func (d *EstDriver) Step(x *Exec, n *Node, i int) StepResult {
 		}
 		// per (container, node): entries more than CleanupDelta epochs older than the new one go
 		for k := range m.m {
-			if k == "prev" || k == "cur" {
+			if k == "prev" || k == "cur" || k == "deleted" {
 				continue
 			}
 			if ke, kc, kn := parse(k); kc == o.cid && kn == o.node && e-ke > 3 {
@@ -876,7 +894,7 @@ func (d *EstDriver) Step(x *Exec, n *Node, i int) StepResult {
 	// ---- all reads for all epochs the menu or the model mention ----
 	epset := map[int64]bool{0: true, 1: true, 256: true, 257: true}
 	for k := range nm.m {
-		if k == "prev" || k == "cur" {
+		if k == "prev" || k == "cur" || k == "deleted" {
 			continue
 		}
 		e, _, _ := parse(k)
@@ -924,7 +942,7 @@ func (d *EstDriver) Step(x *Exec, n *Node, i int) StepResult {
 		}
 		explained := func(extra string) bool {
 			for k := range nm.m {
-				if k == "prev" || k == "cur" {
+				if k == "prev" || k == "cur" || k == "deleted" {
 					continue
 				}
 				ke, kc, _ := parse(k)
@@ -961,7 +979,7 @@ func (d *EstDriver) Step(x *Exec, n *Node, i int) StepResult {
 			// starts with LE(e); the answer must be the model's list plus precisely those
 			explAll := append([]string{}, wantAll...)
 			for k, v := range nm.m {
-				if k == "prev" || k == "cur" || len(v) == 0 {
+				if k == "prev" || k == "cur" || k == "deleted" || len(v) == 0 {
 					continue
 				}
 				if ke, _, kn := parse(k); properPrefixEpoch(e, ke) {
@@ -984,9 +1002,13 @@ func (d *EstDriver) Step(x *Exec, n *Node, i int) StepResult {
 			cnt++
 		}
 	}
-	if cnt != len(nm.m)-2 {
+	meta := 2 // "prev" and "cur"
+	if _, ok := nm.m["deleted"]; ok {
+		meta++
+	}
+	if cnt != len(nm.m)-meta {
 		where["method"] = "raw-scan"
-		return viol("cleanup-wrong", fmt.Sprintf("%d estimation records stored, model has %d (current epoch %d): %v", cnt, len(nm.m)-2, nm.epoch, nm.m))
+		return viol("cleanup-wrong", fmt.Sprintf("%d estimation records stored, model has %d (current epoch %d): %v", cnt, len(nm.m)-meta, nm.epoch, nm.m))
 	}
 	nn.M = nm
 	return StepResult{Next: nn, Outcome: "HALT", Changed: true, Soft: dedupSoft(soft)}
